@@ -172,7 +172,10 @@ def run_case(case: dict) -> dict:
             except Exception as exc:  # pylint: disable=broad-exception-caught
                 violations.append({"key": "stream-raised/tfds", "msg": f"{label} re-iterated: {type(exc).__name__}: {str(exc)[:200]}"})
         # ---- two repeating iterators alive at once, consumed alternately across epoch boundaries
-        for iface in rng.sample(ifaces, min(2, len(ifaces))):
+        interleaved_ifaces = rng.sample(ifaces, min(2, len(ifaces)))
+        if "rust" in ifaces and "rust" not in interleaved_ifaces:
+            interleaved_ifaces.append("rust")      # the native iterator registry is shared state: always exercised
+        for iface in interleaved_ifaces:
             if iface == "conc" and fmt == "tfrec":
                 continue   # tf.device scope inside the suspended generator (see C02 notes)
             a_split, b_split = rng.choice(splits), rng.choice(splits)
